@@ -52,8 +52,9 @@ def random_walk(b: Built, mi: int, engine: str, rng: random.Random, n_steps: int
     return {"mi": mi, "eng": engine, "tag": tag, "steps": out_steps}
 
 
-def _viol(prop, clauses, engine, b: Built, steps, out, source, observed_post) -> dict:
+def _viol(prop, clauses, engine, b: Built, steps, out, source, observed_post, pre=None) -> dict:
     return {"property": prop, "clauses": list(clauses), "engine": engine, "label": b.spec.label,
+            "missing": list(getattr(b.spec, "missing", []) or []), "pre": pre,
             "family": b.spec.family, "config": b.spec.config, "actions": b.spec.actions,
             "guards": b.spec.guards, "steps": steps, "out": out, "source": source,
             "observed_post": observed_post, "defn": b.defn}
@@ -77,7 +78,10 @@ def unit(args: dict) -> dict:
         if args.get("mc", True):
             res, edges = pipeline.model_check(built, os.path.join(wd, "mc"), engine=engine,
                                               gvals=args["gvals"], with_can=args.get("with_can", False),
-                                              workers=args.get("tlc_workers", 2), timeout=args.get("timeout", 1700))
+                                              workers=args.get("tlc_workers", 2), timeout=args.get("timeout", 1700),
+                                              props=props, max_states=args.get("max_states", 10 ** 8))
+            if res.distinct_states >= args.get("max_states", 10 ** 8):
+                out["exhaustive"] = False
             out["states"] = res.distinct_states
             out["transitions"] = res.states_generated
             out["edges"] = len(edges)
@@ -90,26 +94,48 @@ def unit(args: dict) -> dict:
         run = replay.RUNNERS[engine]
         traces: List[dict] = []
         trace_ctx: List[Tuple[Built, list]] = []
-        for e in edges:
-            k = state_key(e.mi, e.frm)
-            if k not in paths:
-                continue
-            b = built[e.mi - 1]
-            steps = [p.step for p in paths[k]] + [e.step]
-            r = run(b, steps)
-            post, log = r[-1]
+        def judge(e, b, steps, post, log, pre):
             out["replayed"] += 1
             what = replay.compare(e, post, log, engine)
             if what is None:
                 for p in props:
                     if e.prop.get(p):
-                        out["violations"].append(_viol(p, e.prop[p], engine, b, steps, log, "edge", post))
+                        out["violations"].append(_viol(p, e.prop[p], engine, b, steps, e.out, "edge", post, pre))
             else:
                 out["divergent_edges"] += 1
-                pre = r[-2][0] if len(r) > 1 else uninit_state(b)
                 traces.append({"mi": e.mi, "eng": engine, "tag": f"edge:{what}",
                                "steps": [{"pre": obs_state(pre), "step": e.step, "post": obs_state(post), "out": log}]})
                 trace_ctx.append((b, steps[:-1]))
+
+        # Edges that leave the abstract state unchanged (unhandled events, can(), refused sends) are
+        # replayed in one run per source state: path once, then all of them in sequence.  Every other
+        # edge gets a fresh interpreter, the path, and the step.
+        by_src: Dict[str, List[Edge]] = {}
+        for e in edges:
+            by_src.setdefault(state_key(e.mi, e.frm), []).append(e)
+        for k, group in by_src.items():
+            if k not in paths:
+                continue
+            b = built[group[0].mi - 1]
+            prefix = [p.step for p in paths[k]]
+            still = [e for e in group if e.frm == e.to and not e.dirty and not e.to["err"]]
+            moving = [e for e in group if not (e.frm == e.to and not e.dirty and not e.to["err"])]
+            if still:
+                r = run(b, prefix + [e.step for e in still])
+                pre0 = r[len(prefix) - 1][0] if prefix else uninit_state(b)
+                for i, e in enumerate(still):
+                    if len(prefix) + i >= len(r):
+                        out["errors"].append("batched replay ended early")
+                        break
+                    post, log = r[len(prefix) + i]
+                    pre = r[len(prefix) + i - 1][0] if len(prefix) + i > 0 else pre0
+                    judge(e, b, prefix + [e.step], post, log, pre)
+            for e in moving:
+                steps = prefix + [e.step]
+                r = run(b, steps)
+                post, log = r[-1]
+                pre = r[-2][0] if len(r) > 1 else uninit_state(b)
+                judge(e, b, steps, post, log, pre)
         if edges:
             e0 = next((e for e in edges if e.frm["config"] != e.to["config"] and e.step["op"] == "send"), edges[0])
             out["samples"].append({"machine": built[e0.mi - 1].spec.label, "from": e0.frm["config"],
@@ -126,7 +152,7 @@ def unit(args: dict) -> dict:
             out["walk_traces"] += 1
         if traces:
             vres, verdicts = pipeline.validate_traces(built, traces, os.path.join(wd, "tr"),
-                                                      workers=args.get("tlc_workers", 2))
+                                                      workers=args.get("tlc_workers", 2), props=props)
             want = sum(len(t["steps"]) for t in traces)
             if len(verdicts) != want:
                 out["errors"].append(f"trace validation returned {len(verdicts)} verdicts for {want} steps: "
@@ -177,8 +203,8 @@ def violation_signature(v: dict) -> str:
 def write_replay(v: dict) -> str:
     os.makedirs(os.path.join(ROOT, "replays"), exist_ok=True)
     path = os.path.join(ROOT, "replays", f"{v['property']}-{violation_signature(v)}.json")
-    rec = {k: v[k] for k in ("property", "clauses", "engine", "label", "family", "config", "actions", "guards",
-                             "steps", "out", "source", "observed_post")}
+    rec = {k: v.get(k) for k in ("property", "clauses", "engine", "label", "family", "config", "actions", "guards",
+                                 "missing", "steps", "out", "source", "observed_post")}
     with open(path, "w") as f:
         json.dump(rec, f, indent=1)
     return path
